@@ -4,7 +4,7 @@ CFG = dict(
               "C06.null_compare_not_true", "C06.case_first_true", "C06.case_else_null", "C06.sql_case_else_null",
               "C06.where_eq_sqlEval_partial", "C06.where_eq_sqlEval_fails", "C06.bridge_sound_nonnull",
               "C06.engine_select_sound", "C06.engine_select_nonnull", "C06.engine_select_handfirst",
-              "C06.eval_history_free", "C06.eval_history_free_prefix"],
+              "C06.eval_history_free", "C06.eval_history_free_prefix", "C06.facts_routing"],
     rule="one case = one random typed expression (depth 1-4 over columns a,b,s,t,f,n: arithmetic, comparisons, AND/OR/NOT, searched and simple CASE, "
          "nested CASE, calls, redundant parentheses) printed to SQL, compiled once in SELECT and (conditions) in WHERE position, evaluated on 15 rows "
          "(int/float/text/bool/NULL/missing cells, type-mixed rows, one fully typed row, 4 rows repeated after differently typed rows); every 6th case is "
